@@ -69,10 +69,10 @@ Qed.
 
 (* two networks that carry the same byte stream, however it is cut into
    deliveries and wherever the time-outs fall, with any two recvsize settings *)
-Theorem chunking_independent mx rs1 rs2 n1 n2 sc1 sc2 ops :
+Theorem chunking_independent mx rs1 rs2 d1 d2 n1 n2 sc1 sc2 ops :
   wf_net n1 = true -> wf_net n2 = true -> 1 <= rs1 -> 1 <= rs2 ->
   flat n1 = flat n2 -> forallb is_det_op ops = true ->
-  run_retry (bs_init mx rs1 n1 sc1) ops = run_retry (bs_init mx rs2 n2 sc2) ops.
+  run_retry (bs_init_dl mx rs1 d1 n1 sc1) ops = run_retry (bs_init_dl mx rs2 d2 n2 sc2) ops.
 Proof.
   intros W1 W2 R1 R2 Hf Hops. rewrite !run_retry_spec by assumption.
   unfold remaining. cbn. rewrite Hf. reflexivity.
@@ -85,9 +85,9 @@ Definition at_once (stream : bytes) : net :=
 Lemma at_once_ok stream : wf_net (at_once stream) = true /\ flat (at_once stream) = stream.
 Proof. destruct stream; cbn; [auto|]. rewrite app_nil_r. auto. Qed.
 
-Corollary same_as_at_once mx rs n ops :
+Corollary same_as_at_once mx rs d n ops :
   wf_net n = true -> 1 <= rs -> forallb is_det_op ops = true ->
-  run_retry (bs_init mx rs n []) ops = run_retry (bs_init mx rs (at_once (flat n)) []) ops.
+  run_retry (bs_init_dl mx rs d n []) ops = run_retry (bs_init_dl mx rs d (at_once (flat n)) []) ops.
 Proof.
   intros W R Hops. destruct (at_once_ok (flat n)) as [W2 F2].
   apply chunking_independent; auto.
